@@ -70,6 +70,14 @@ class DictVal:
         return "D%r+%r" % (self.items, set(self.rest))
 
 
+def relabel(v, f):
+    if isinstance(v, TupleVal):
+        return TupleVal([relabel(e, f) for e in v.elts])
+    if isinstance(v, DictVal):
+        return DictVal({k: relabel(x, f) for k, x in v.items.items()}, relabel(v.rest, f))
+    return frozenset(f(x) for x in v)
+
+
 def flat(v):
     if isinstance(v, (TupleVal, DictVal)):
         return v.flat()
@@ -131,6 +139,11 @@ class DepAnalysis:
         self.none_params = set(none_params)  # mode specialisation: these parameters are None
         self.functions_seen = set()
         self.compare_sides = {}  # (lineno, normalised text) -> (deps(left), deps(right)) for two-sided comparisons
+        self.bindings = {}       # callee qual -> [parameter environment at each inlined call]
+        self.relabel = {}        # callee qual -> function applied to the labels of its return value
+        self.compare_where = {}  # same keys as compare_sides -> (function, inline stack)
+        self.stack = []          # quals of the functions being inlined (innermost last)
+        self.lib_calls = []      # (caller FuncInfo, call node, labels of all arguments) for calls that are not inlined
 
     def analyse(self, fi, param_values=None):
         a = fi.node.args
@@ -392,6 +405,7 @@ class _DWalker(FlowWalker):
             rs |= flat(self.ev(c, env))
         if self.is_entry and len(node.comparators) == 1:
             self.an.compare_sides[(node.lineno, norm(node))] = (clean(l), clean(rs))
+            self.an.compare_where[(node.lineno, norm(node))] = (self.fi, tuple(self.an.stack))
         return out | rs
 
     def ev_IfExp(self, node, env):
@@ -436,7 +450,16 @@ class _DWalker(FlowWalker):
         for k in node.keywords:
             v = self.ev(k.value, env)
             if k.arg is None:
-                star |= flat(v)
+                if isinstance(v, DictVal):
+                    # **{...}: literal keys stay separate keyword arguments (key-sensitive)
+                    for kk, vv in v.items.items():
+                        if isinstance(kk, str):
+                            kwargs.setdefault(kk, vv)
+                        else:
+                            star |= flat(vv)
+                    star |= v.rest
+                else:
+                    star |= flat(v)
             else:
                 kwargs[k.arg] = v
         self.an.call_args[id(node)] = (node, self.fi, args, kwargs)
@@ -458,9 +481,10 @@ class _DWalker(FlowWalker):
             out |= flat(v)
         if isinstance(f, ast.Name) and f.id in env.names:
             out |= flat(env.names[f.id])
+        self.an.lib_calls.append((self.fi, node, out, tuple(self.an.stack)))
         # dict(...) with keywords keeps keys
-        if isinstance(f, ast.Name) and f.id == "dict" and not args and not star:
-            return DictVal(kwargs)
+        if isinstance(f, ast.Name) and f.id == "dict" and not args:
+            return DictVal(kwargs, star)
         return out
 
     def inline(self, callee, args, kwargs, star, self_val):
@@ -499,8 +523,13 @@ class _DWalker(FlowWalker):
                 if k not in known:
                     extra |= flat(v)
             env.names[a.kwarg.arg] = extra
+        self.an.bindings.setdefault(callee.qual, []).append(dict(env.names))
         self.an.depth += 1
+        self.an.stack.append(callee.qual)
         try:
-            return self.an.run(callee, env)
+            r = self.an.run(callee, env)
         finally:
             self.an.depth -= 1
+            self.an.stack.pop()
+        f = self.an.relabel.get(callee.qual)
+        return relabel(r, f) if f is not None else r
